@@ -245,6 +245,7 @@ class SimTransport:
         self.delivered_total = 0   # bytes of ours delivered to the peer
         self.tamper = None         # optional fn(data, offset) -> data applied at delivery
         self.read_pause_log = []
+        self.wlog = bytearray()    # first 4 KiB ever written on this end
 
     def write(self, data):
         assert isinstance(data, bytes), type(data)
@@ -254,6 +255,8 @@ class SimTransport:
             return
         self.outq += data
         self.sent_total += len(data)
+        if len(self.wlog) < 4096:
+            self.wlog += data[:4096 - len(self.wlog)]
         if self.producer and self.streaming and not self.producer_paused and len(self.outq) > self.bufsize:
             self.producer_paused = True
             self.producer.pauseProducing()
@@ -276,6 +279,12 @@ class SimTransport:
 
     def getHost(self):
         return self._host
+
+    def setTcpKeepAlive(self, enabled):
+        pass
+
+    def setTcpNoDelay(self, enabled):
+        pass
 
     def registerProducer(self, producer, streaming):
         if self.producer is not None:
@@ -553,8 +562,9 @@ class World:
         return self._t
 
     def _alloc_port(self):
+        p = self.net.next_port
         self.net.next_port += 1
-        return self.net.next_port
+        return p
 
     def _shim(self):
         world = self
@@ -584,6 +594,21 @@ class World:
             else:
                 out.append(("log", None, str(ev.get("message"))[:200]))
         return out
+
+    def start_relay(self, port=4001):
+        """the real wormhole_transit_relay protocol listening on the sim network"""
+        from twisted.internet import protocol as tprotocol
+        from wormhole_transit_relay.transit_server import Transit, TransitConnection
+        from wormhole_transit_relay.usage import create_usage_tracker
+        node = NodeReactor(self, "relay", "10.0.0.200")
+        usage = create_usage_tracker(blur_usage=None, log_file=None, usage_db=None)
+        f = tprotocol.ServerFactory()
+        f.protocol = TransitConnection
+        f.log_requests = False
+        f.transit = Transit(usage, self.clock.seconds)
+        node.listenTCP(port, f)
+        self.relay_node = node
+        return "tcp:10.0.0.200:%d" % port
 
     def node(self, name=None):
         n = len(self.clients)
